@@ -583,6 +583,7 @@ void RobustPath::scale(double scale_factor, const Vec2 center) {
     const Vec2 delta = center * (1 - scale_factor);
     simple_scale(scale_factor);
     translate(delta);
+    repetition.transform(scale_factor, false, 0);
 }
 
 void RobustPath::mirror(const Vec2 p0, const Vec2 p1) {
@@ -607,6 +608,7 @@ void RobustPath::mirror(const Vec2 p0, const Vec2 p1) {
     trafo[5] = m3 * tr2 + m4 * tr5;
     translate(p1);
     offset_scale *= -1;
+    repetition.transform(1, true, 2 * direction.angle());
 }
 
 void RobustPath::simple_rotate(double angle) {
@@ -630,6 +632,7 @@ void RobustPath::rotate(double angle, const Vec2 center) {
     translate(-center);
     simple_rotate(angle);
     translate(center);
+    repetition.transform(1, false, angle);
 }
 
 void RobustPath::x_reflection() {
@@ -644,6 +647,7 @@ void RobustPath::transform(double magnification, bool x_refl, double rotation, c
     if (x_refl) x_reflection();
     simple_rotate(rotation);
     translate(origin);
+    repetition.transform(magnification, x_refl, rotation);
 }
 
 void RobustPath::apply_repetition(Array<RobustPath *> &result) {
